@@ -13,7 +13,8 @@ LEVEL_TEXT = ("Clause-level static rules: dead-code elimination queues a stateme
               "defs-then-uses while scanning backwards and statements are removed only after the scan; lowering replaces exactly the "
               "proven assertions by the assume of the same condition with the same polarity; clone() copies every member of every "
               "statement class; successor/predecessor lists are written pairwise; entry/exit are never removed. That block merging "
-              "preserves statement order for every graph shape is NOT decided.")
+              "preserves statement order for every graph shape is NOT decided."
+              " simplify folds a block into its predecessor only if the block is not the entry and the predecessor is not the exit.")
 ASSUMPTIONS = ["liveness facts are sound (C18)", "graph walks of simplify() visit blocks in an order that preserves sequencing (not decided)"]
 
 DCE = "include/crab/transforms/dce.hpp"
